@@ -328,11 +328,38 @@ def explore(chk, h, tier, only=None):
                  "source": s[1].decode("latin-1"), "data": s[2] if isinstance(s[2], tuple) else hx(s[2][:200]),
                  "sanitizer": detail, "cmd": "bin/check C16 --replay <this file>"}, found_input=True)
             by_key.setdefault(key, []).append((s[0], k, sticky))
-        for cid in leaks:
-            if any(not isinstance(got.get(k), str) and got.get(k) and (got[k]["live"] or got[k]["live2"]) for k in ks):
-                continue    # already reported per k through the live-allocation counter
-            chk.violation("lsan:scenario:%s" % s[0], "LeakSanitizer reports a leak at the end of batch %s although the live-allocation counter balanced" % cid,
-                          {"scenario": s[0], "batch": cid, "stderr": errs[-3000:]}, found_input=True)
+        if leaks:
+            # LeakSanitizer saw a leak in this batch.  Leaks of blocks that went through the wrappers are already reported per k by
+            # the live-allocation counter; what remains is memory allocated elsewhere (libcrypto, libc): localise by re-running the
+            # k whose counter balanced with a leak check after every k (the first k that reports is the culprit, then continue after it)
+            todo = [k for k in ks if isinstance(got.get(k), dict) and got[k]["live"] == 0 and got[k]["live2"] == 0]
+            for _ in range(12):
+                if not todo:
+                    break
+                cases = [("%s.l.%d.%d" % (s[0], a, b), case_lines(s, a, b, sticky, 1)) for a, b in ranges(todo)]
+                out2, err2 = vlib.run_cases(h, cases, timeout=600, args=["300"])
+                hit = None
+                for cid in sorted(out2, key=lambda c: int(c.split(".")[-2])):
+                    for l in out2[cid]:
+                        r = parse_res(l) if l.startswith("res ") else None
+                        if r and r["lsan"] == 1 and hit is None:
+                            hit = r["k"]
+                    if hit is not None:
+                        break
+                if hit is None:
+                    break
+                site = inject_sites(h, err2).get(hit, sites.get(hit, "?") if sites else "?")
+                m = re.search(r"BEGIN k=%d\n(.*?)(?:BEGIN k=|$)" % hit, err2, re.S)
+                frames = re.findall(r"#\d+ 0x[0-9a-f]+ in (\S+)", m.group(1) if m else "")
+                where = ">".join([f for f in frames if not f.startswith("__") and f not in SKIP_FRAMES][:4])
+                key = "lsan-leak:site:%s" % site
+                chk.violation(key, "C16 scenario %s, allocation #%d of %d fails%s (in %s): LeakSanitizer reports leaked memory that was not "
+                              "allocated through the interposed allocator (allocated in %s)" % (s[0], hit, base["count"],
+                              " and every later one" if sticky else "", site, where),
+                              {"scenario": s[0], "k": hit, "sticky": sticky, "site": site, "kind": "lsan-leak", "window": s[3],
+                               "source": s[1].decode("latin-1"), "allocated_in": where}, found_input=True)
+                by_key.setdefault(key, []).append((s[0], hit, sticky))
+                todo = [k for k in todo if k > hit]
     chk.note(scenarios=stats, scenario_evaluations=evaluations, injected_failures=fired_total, failures_absorbed_with_correct_result=absorbed,
              failing_phase_histogram=phases, violation_keys={k: v[:3] for k, v in sorted(by_key.items())}, distinct_injection_sites=len({d[1] for d in distinct}))
     return evaluations, distinct
